@@ -81,6 +81,13 @@ def _estimate_system_molecular_weight(molecules, system_molweight):
             return False
         mol.mixture.system_mass = system_weight
 
+    # With the system mass known, all fractions are known: they have to describe the entire system.
+    fractions = [mol.mixture.relative_mass for mol in molecules]
+    if None not in fractions and len(fractions) > 0 and abs(sum(fractions) - 100) > 1e-6:
+        raise RuntimeError(
+            f"System described with inconsistent fractions {fractions}, that do not sum to 100 for the system mass {system_weight}."
+        )
+
     return True
 
 
